@@ -214,24 +214,34 @@ Proof.
   unfold lookup. intro H. apply find_some in H. destruct H as [H1 H2]. apply N.eqb_eq in H2. auto.
 Qed.
 
-Lemma inhab_sound : forall T fuel i, inhab T fuel i = true -> exists e, derives T i e.
+Lemma inh_close_sound : forall T fuel S,
+  (forall i, In i S -> exists e, derives T i e) ->
+  forall i, In i (inh_close T fuel S) -> exists e, derives T i e.
 Proof.
-  intros T fuel. induction fuel as [|f IH]; intros i H; cbn [inhab] in H; [discriminate|].
-  destruct (lookup T i) as [n|] eqn:L; [|discriminate]. apply lookup_sound in L. destruct L as [Hn Hi]. subst i.
+  intros T. induction fuel as [|f IH]; intros S HS i Hi; cbn [inh_close] in Hi; [auto|].
+  destruct (inh_step T S) as [|x xs] eqn:E; [auto|].
+  apply (IH (map n_id (x :: xs) ++ S)); [|exact Hi].
+  intros j Hj. apply in_app_or in Hj. destruct Hj as [Hj|Hj]; [|auto].
+  apply in_map_iff in Hj. destruct Hj as [n [Hid Hn]]. subst j. rewrite <- E in Hn.
+  unfold inh_step in Hn. apply filter_In in Hn. destruct Hn as [HnT Hc].
+  apply andb_true_iff in Hc. destruct Hc as [_ Hc].
   destruct (n_kind n) eqn:K.
-  - apply existsb_exists in H. destruct H as [m [Hm Hp]]. destruct (IH _ Hp) as [e D].
-    exists e. eapply D_fun; eauto.
+  - apply existsb_exists in Hc. destruct Hc as [m [Hm HmS]]. apply mem_In in HmS.
+    destruct (HS _ HmS) as [e D]. exists e. eapply D_fun; eauto.
   - eexists. eapply D_leaf; eauto.
   - eexists. eapply D_ctx; eauto.
   - eexists. eapply D_bare; eauto.
-  - apply existsb_exists in H. destruct H as [m [Hm Hp]]. destruct (IH _ Hp) as [e D].
-    eexists. eapply D_wrapw; eauto.
-  - apply existsb_exists in H. destruct H as [m [Hm Hp]]. destruct (IH _ Hp) as [e D].
-    eexists. eapply D_rewrapv; eauto.
-  - apply existsb_exists in H. destruct H as [m [Hm Hp]]. destruct (IH _ Hp) as [e D].
-    eexists. eapply D_cause; eauto.
+  - apply existsb_exists in Hc. destruct Hc as [m [Hm HmS]]. apply mem_In in HmS.
+    destruct (HS _ HmS) as [e D]. eexists. eapply D_wrapw; eauto.
+  - apply existsb_exists in Hc. destruct Hc as [m [Hm HmS]]. apply mem_In in HmS.
+    destruct (HS _ HmS) as [e D]. eexists. eapply D_rewrapv; eauto.
+  - apply existsb_exists in Hc. destruct Hc as [m [Hm HmS]]. apply mem_In in HmS.
+    destruct (HS _ HmS) as [e D]. eexists. eapply D_cause; eauto.
   - eexists. eapply D_unknown; eauto.
 Qed.
+
+Lemma inhab_set_sound : forall T i, In i (inhab_set T) -> exists e, derives T i e.
+Proof. intros T. unfold inhab_set. apply inh_close_sound. intros i []. Qed.
 
 Section Eval.
   Variable T : table.
@@ -251,7 +261,7 @@ Section Eval.
     eapply D_fun; eauto. unfold is_fun in Hf. destruct (n_kind n); try discriminate Hf. reflexivity.
   Qed.
 
-  Lemma term_sound : forall n k c, In n T -> term_match T n k c = true ->
+  Lemma term_sound : forall n k c, In n T -> term_match (inhab_set T) n k c = true ->
     exists e, derives T (n_id n) e /\ shape_of e = [(k, c)].
   Proof.
     intros n k c Hn H. unfold term_match in H. destruct (n_kind n) eqn:K; try discriminate H.
@@ -262,7 +272,8 @@ Section Eval.
     - apply andb_true_iff in H. destruct H as [H1 H2]. apply N.eqb_eq in H1, H2. subst.
       eexists. split; [eapply D_bare; eauto|reflexivity].
     - apply andb_true_iff in H. destruct H as [H1 H2].
-      apply existsb_exists in H2. destruct H2 as [m [Hm Hp]]. destruct (inhab_sound _ _ _ Hp) as [e D].
+      apply existsb_exists in H2. destruct H2 as [m [Hm Hp]]. apply mem_In in Hp.
+      destruct (inhab_set_sound _ _ Hp) as [e D].
       eexists. split; [eapply D_rewrapv; eauto|]. cbn [shape_of].
       destruct (n_code n =? 0) eqn:Z; apply andb_true_iff in H1; destruct H1 as [Ha Hb];
         apply N.eqb_eq in Ha, Hb; now subst.
@@ -279,7 +290,7 @@ Section Eval.
     - eexists. split; [eapply D_cause; eauto|reflexivity].
   Qed.
 
-  Theorem prod_set_sound : forall sh, sound_set (prod_set T sh) sh.
+  Theorem prod_set_sound : forall sh, sound_set (prod_set T (inhab_set T) sh) sh.
   Proof.
     induction sh as [|[k c] rest IH]; [intros i []|].
     cbn [prod_set]. apply close_sound. destruct rest as [|p rest'].
